@@ -221,7 +221,7 @@ def run(tier):
         okk = a[0] == ('param', bufd) and has_call(a[1], 'Layout::validate') and term_contains(a[1], lambda y: y == 'frm_start') and term_contains(a[2], lambda y: y == 'frm_end')
         # counter: ((fcnt >> 16) << 16) | wire16
         fcp = param_by_name(bd.body, 'fcnt')
-        bl = term_bits(bd, a[3], 32)
+        bl = term_bits(bd, layout.expand_calls(c.pf, a[3]), 32)
         hi_ok = all(bl[k_] == ('i', 'arg%d' % fcp, k_) for k_ in range(16, 32))
         want_lo = [('i', 'index(*arg%d, 6)' % bufd, k_) for k_ in range(8)] + [('i', 'index(*arg%d, 7)' % bufd, k_) for k_ in range(8)]
         okk = okk and hi_ok and bl[:16] == want_lo
